@@ -91,7 +91,15 @@ where
 
     /// Returns an iterator over the elements of the container.
     pub fn iter(&self) -> TLVContainerIter<'a, T> {
-        TLVContainerIter::new(unwrap!(self.element.container()).iter())
+        // The checking constructors accept an empty element (an absent container):
+        // there is nothing to iterate over then
+        let seq = if self.element.is_empty() {
+            crate::tlv::TLVSequence(&[])
+        } else {
+            unwrap!(self.element.container())
+        };
+
+        TLVContainerIter::new(seq.iter())
     }
 }
 
